@@ -51,6 +51,12 @@ def metaw(m, a, napp, tiers):
         bound="%d appends of 0..%d symbolic bytes then flush, metadata block size scaled to %d, KEEP_IN_MEMORY symbolic, compressor returns any contract-conforming value" % (napp, a, m))
 OBLIGATIONS += [metaw(4, 3, 2, ["quick", "thorough"]), metaw(4, 5, 2, ["thorough"]), metaw(3, 3, 3, ["thorough"])]
 
+OBLIGATIONS.append(dict(name="fragment_block_always_stored_bs4", harness="harness/C17_fragblock.c", sources=["lib/sqfs/src/inode.c", "lib/util/src/is_memory_zero.c", "lib/util/src/alloc.c"],
+    included_sources=["lib/sqfs/src/block_processor/block_processor.c", "lib/sqfs/src/block_processor/backend.c"], incdirs=["lib/sqfs/src/block_processor"],
+    defines=dict(BS=4), unwind=8, tiers=["quick", "thorough"], timeout=300, fp_map={"do_block": ["cmp_none"], "write_data_block": ["wr_write"]},
+    reach=["sparse_tail", "zero_nosparse_tail", "data_tail"],
+    functions=["process_block (block_processor.c)", "process_completed_fragment, process_completed_block, set_block_size (lib/sqfs/src/block_processor/backend.c)"],
+    bound="one tail-end fragment of 1..4 symbolic bytes with symbolic nosparse / dont_compress flags, no fragment table, then completion of the fragment block it opened"))
 ASSUMPTIONS = ["codec libraries (liblz4, libzstd) replaced by contract stubs that return any documented value",
                "metadata writer replaced by a recording stub with a position model (offset wraps at the scaled block size, block address advances by 3..M+2)",
                "inode references < 2^48 and block positions < 2^40"]
